@@ -1642,6 +1642,8 @@ class Stream(AbstractStream):
             self._imol.data = other._imol.data
         if phase and self._imol.data.ndim == 1:
             self._imol._phase = other._imol._phase
+        if hasattr(self, '_streams'): self._streams.clear() # Phase sub-streams reference the old rows and thermal condition
+        self.reset_cache() # Equilibrium objects reference the old indexer data and thermal condition
             
     def unlink(self):
         """
